@@ -1,0 +1,25 @@
+// +build verif
+
+package tmutex
+
+// Schedule points: one before every atomic / channel operation of the mutex.
+const (
+	verifLockAdd = iota
+	verifLockLoad
+	verifLockRecv
+	verifTryLoad
+	verifTryCAS
+	verifUnlockSwap
+	verifUnlockSend
+)
+
+// VerifHook, when set, is called before each atomic or channel operation with
+// the identity of the schedule point, so that a harness can force an
+// interleaving.
+var VerifHook func(point int)
+
+func verifPoint(k int) {
+	if h := VerifHook; h != nil {
+		h(k)
+	}
+}
